@@ -155,9 +155,11 @@ def setup_env(mod_numba, workdir):
     os.environ["DATAITER_VERIF"] = "1"
     if mod_numba:
         os.environ["DATAITER_USE_NUMBA"] = "true"
-        cache = os.path.join(workdir, "numba-cache")
+        # private JIT cache of this run; worker interpreters of the same run share it (never /repo's default)
+        cache = os.environ.get("VERIF_RUN_NUMBA_CACHE") or os.path.join(workdir, "numba-cache")
         os.makedirs(cache, exist_ok=True)
         os.environ["NUMBA_CACHE_DIR"] = cache
+        os.environ["VERIF_RUN_NUMBA_CACHE"] = cache
     else:
         os.environ["DATAITER_USE_NUMBA"] = "false"
     import warnings
